@@ -9,12 +9,12 @@ MODULES = {
     "C01": _SOCK + ["contracts.at4_ext_timer", "contracts.at5_ctrl_status"],  # header factories: packet counter wrap (runs > 256 sends)
     "C02": _SOCK + _API + _HB,
     "C03": ["contracts.c06_crc", "contracts.frame_roundtrip", "contracts.comms_registry"] + _CODECS + _FL,
-    "C04": _CODECS + _API + _FL,
+    "C04": _CODECS + _API + _FL + ["contracts.c06_crc"],  # the check bytes of a command frame
     "C05": _CODECS + _FL,
     "C06": ["contracts.c06_crc"] + _SOCK,
     "C07": _SOCK + ["contracts.api_zone", "contracts.api_ac"],  # setters: what an encoder may raise is what the drain catches
     "C08": _HB + ["contracts.sock_conn", "contracts.api_airtouch"],
-    "C09": _API,
+    "C09": _API + ["contracts.sock_conn"],  # open_socket must not wait for the connection (init() budget)
     "C10": _API + _FL,
     "C11": _API + _FL,
     "C12": _API + ["contracts.sock_conn"],
